@@ -249,22 +249,38 @@ def measY (t : Tab) (q : Nat) (o : Bool) : Tab × Bool × Nat :=
   let r := ((t.sdgGate q).hGate q).zMeasure q o
   ((r.1.hGate q).sGate q, r.2.1, r.2.2)
 
-/-- the tableau API extended by the X / Y measurements -/
+/-- `control_y_gate(tableau, c, t)` of transformation.py = `phase_gate; z_gate; cnot_gate; phase_gate` (on the target) -/
+def cyGate (t : Tab) (c tg : Nat) : Tab := (((t.sGate tg).zGate tg).cnotGate c tg).sGate tg
+
+/-- `tensor(list_of_tables)`: the list is folded into its first element, one `tensor2` step per further factor -/
+def tensorList (t : Tab) (ts : List Tab) : Tab := ts.foldl tensor2 t
+
+/-- `Stabilizer.trace_out_qubits(positions)` / `MixedStabilizer.trace_out_qubits` (state.py, after the repair D54):
+    `partial_trace` with `keep` = the qubits NOT listed, in increasing order -/
+def traceOutQubits (t : Tab) (positions : List Nat) (os : List Bool) : Except Err Tab :=
+  t.partialTrace ((List.range t.n).filter fun q => !positions.contains q) os
+
+/-- the tableau API extended by the X / Y measurements, `control_y_gate` and the wrappers' `trace_out_qubits` -/
 inductive OpX where
   | base (op : Op)
   | measX (q : Nat) (o : Bool)
   | measY (q : Nat) (o : Bool)
   | xMeasGate (q : Nat) (o : Bool)
+  | cy (c t : Nat)
+  | traceOut (positions : List Nat) (os : List Bool)
 
-/-- the base operations an extended operation consists of -/
-def OpX.desugar : OpX → List Op
+/-- the base operations an extended operation consists of, on a tableau of `n` qubits (only `traceOut` depends on `n`: its
+    `keep` list is the complement of the listed positions) -/
+def OpX.desugar (n : Nat) : OpX → List Op
   | .base op => [op]
   | .measX q o => [.h q, .meas q o, .h q]
   | .xMeasGate q o => [.h q, .meas q o, .h q]
   | .measY q o => [.sdg q, .h q, .meas q o, .h q, .s q]
+  | .cy c t => [.s t, .z t, .cnot c t, .s t]
+  | .traceOut positions os => [.ptrace ((List.range n).filter fun q => !positions.contains q) os]
 
-/-- one extended API call (the first thing every one of the new functions does is a gate on `q`, whose `assert` fires for
-    `q ≥ n` before anything is changed) -/
+/-- one extended API call (the first thing every one of the new gate / measurement functions does is a gate on the qubit,
+    whose `assert` fires for an index `≥ n`; `control_y_gate` asserts on the target first, then `cnot_gate` on both) -/
 def applyOpX (t : Tab) : OpX → Except Err (Tab × Option (Bool × Bool))
   | .base op => t.applyOp op
   | .measX q o =>
@@ -282,17 +298,11 @@ def applyOpX (t : Tab) : OpX → Except Err (Tab × Option (Bool × Bool))
       let r := t.measY q o
       .ok (r.1, some (r.2.1, r.2.2 ≠ 0))
     else .error .assertion
-
-/-- `control_y_gate(tableau, c, t)` of transformation.py = `phase_gate; z_gate; cnot_gate; phase_gate` (on the target) -/
-def cyGate (t : Tab) (c tg : Nat) : Tab := (((t.sGate tg).zGate tg).cnotGate c tg).sGate tg
-
-/-- `tensor(list_of_tables)`: the list is folded into its first element, one `tensor2` step per further factor -/
-def tensorList (t : Tab) (ts : List Tab) : Tab := ts.foldl tensor2 t
-
-/-- `Stabilizer.trace_out_qubits(positions)` / `MixedStabilizer.trace_out_qubits` (state.py, after the repair D54):
-    `partial_trace` with `keep` = the qubits NOT listed, in increasing order -/
-def traceOutQubits (t : Tab) (positions : List Nat) (os : List Bool) : Except Err Tab :=
-  t.partialTrace ((List.range t.n).filter fun q => !positions.contains q) os
+  | .cy c tg => if tg < t.n ∧ c < t.n then .ok (t.cyGate c tg, none) else .error .assertion
+  | .traceOut positions os =>
+    match t.traceOutQubits positions os with
+    | .ok t' => .ok (t', none)
+    | .error e => .error e
 
 /-- a history of extended API calls -/
 def runOpsX (t : Tab) : List OpX → Except Err Tab
